@@ -1021,7 +1021,15 @@ fn te_encode<P: te::TECurveConfig>(x: &P::BaseField, y: &P::BaseField, c: Compre
 }
 
 fn te_foreign<P: te::TECurveConfig>(g: &mut G<'_>, c: Compress) -> Option<(Vec<u8>, &'static str)> {
-    match g.rng.below(6) {
+    match g.rng.below(7) {
+        6 => {
+            // the exceptional y of decompression: a - d*y^2 = 0 (x^2 would be (1-y^2)/0)
+            let di = P::COEFF_D.inverse()?;
+            let y = (P::COEFF_A * di).sqrt()?;
+            let y = if g.rng.chance(1, 2) { y } else { -y };
+            let f = if g.rng.chance(1, 2) { 0x80 } else { 0 };
+            Some((enc_field(&y, f, 1), "y with a - d*y^2 = 0 (compressed layout)"))
+        },
         0 | 1 => {
             let p = te_random_curve_point::<P>(g);
             Some((te_encode::<P>(&p.x, &p.y, c), "random curve point"))
